@@ -8,7 +8,7 @@
    hardware differential run only (listed as unproved_forms in the evidence). *)
 From Coq Require Import ZArith Bool List.
 From AxV Require Import Bits Outcome Codes Iced State Rt Mem Trace Exec ExecP FrameTac FrameP RegFile RegsP ISA CodeSem IsaP FlagsP AluP.
-From AxG Require Import Flags Regs Operand Helpers Dispatch Frame I_add I_and.
+From AxG Require Import Flags Regs Operand Helpers Dispatch Frame I_add I_and I_sub I_cmp I_xor.
 Local Open Scope Z_scope.
 
 (* The flag helper of the emulator (state/flags.rs set_flags!, one instance per operand width,
@@ -63,9 +63,52 @@ Theorem C02_and_rm64_r64 : forall c i s,
   exists s', instr_and_rm64_r64 c i s = (Ok tt, s') /\ isa_exec (SAlu AND 64) i s = IDone s' 0.
 Proof. exact and_rm64_r64_refines. Qed.
 
+(* SUB: the borrow and signed-overflow bits of the subtraction closure are the architectural ones *)
+Theorem C02_sub64_borrow_overflow : forall d sv,
+  0 <= d < 2 ^ 64 -> 0 <= sv < 2 ^ 64 ->
+  (let v_result := cast I64 U64 (wsub I64 (cast U64 I64 d) (cast U64 I64 sv)) in
+   (v_result,
+    Z.lor (if negb (Z.land (Z.land (Z.lxor (cast U64 I128 d) (cast U64 I128 sv)) (Z.lxor (cast U64 I128 d) (cast U64 I128 v_result)))
+                           9223372036854775808 =? 0) then FLAG_OF else 0)
+          (if Z.land (wsub I128 (Z.lor (cast U64 I128 d) 18446744073709551616) (cast U64 I128 sv)) 18446744073709551616 =? 0
+           then FLAG_CF else 0)))
+  = ((d - sv) mod 2 ^ 64,
+     Z.lor (b2f (negb (fits_signed 64 (sgn 64 d - sgn 64 sv))) FLAG_OF) (b2f (d <? sv) FLAG_CF)).
+Proof. exact sub64_closure. Qed.
+
+Theorem C02_sub_rm64_r64 : forall c i s,
+  wf_regs s -> 0 <= rflags s < 2 ^ 64 -> i_op_count i = 2 ->
+  i_op_kind i 0 = OK_Register -> i_op_kind i 1 = OK_Register ->
+  is_gpr64 (i_op_register i 0) = true -> is_gpr64 (i_op_register i 1) = true ->
+  i_code i = C_Sub_rm64_r64 ->
+  exists s', instr_sub_rm64_r64 c i s = (Ok tt, s') /\ isa_exec (SAlu SUB 64) i s = IDone s' 0.
+Proof. exact sub_rm64_r64_refines. Qed.
+
+(* CMP: the flags of SUB and no destination write.  The emulator marks "no write-back" in
+   bit 63 of its flag set and clears that bit from RFLAGS together with the flags; RFLAGS bit 63
+   is reserved-zero on every CPU, which is the hypothesis [rflags s < 2^63]. *)
+Theorem C02_cmp_rm64_r64 : forall c i s,
+  wf_regs s -> 0 <= rflags s < 2 ^ 63 -> i_op_count i = 2 ->
+  i_op_kind i 0 = OK_Register -> i_op_kind i 1 = OK_Register ->
+  is_gpr64 (i_op_register i 0) = true -> is_gpr64 (i_op_register i 1) = true ->
+  i_code i = C_Cmp_rm64_r64 ->
+  exists s', instr_cmp_rm64_r64 c i s = (Ok tt, s') /\ isa_exec (SAlu CMP 64) i s = IDone s' 0.
+Proof. exact cmp_rm64_r64_refines. Qed.
+
+Theorem C02_xor_rm64_r64 : forall c i s,
+  wf_regs s -> 0 <= rflags s < 2 ^ 64 -> i_op_count i = 2 ->
+  i_op_kind i 0 = OK_Register -> i_op_kind i 1 = OK_Register ->
+  is_gpr64 (i_op_register i 0) = true -> is_gpr64 (i_op_register i 1) = true ->
+  i_code i = C_Xor_rm64_r64 ->
+  exists s', instr_xor_rm64_r64 c i s = (Ok tt, s') /\ isa_exec (SAlu XOR 64) i s = IDone s' 0.
+Proof. exact xor_rm64_r64_refines. Qed.
+
 Print Assumptions cond_matches_sdm.
 Print Assumptions C02_set_flags_64.
 Print Assumptions C02_set_flags_8.
 Print Assumptions C02_add64_carry_overflow.
 Print Assumptions C02_add_rm64_r64.
 Print Assumptions C02_and_rm64_r64.
+Print Assumptions C02_sub_rm64_r64.
+Print Assumptions C02_cmp_rm64_r64.
+Print Assumptions C02_xor_rm64_r64.
